@@ -342,7 +342,7 @@ func materialise(o *c09Obj) (*sharedObj, string) {
 
 const c09Rule = "workloads: 1-4 shared objects (generated parsers whose nodes carry Tokens/[]lexer.Token fields, stateful definitions with " +
 	"back-references, a token-list parser over such a definition, a parser with two mappers (Upper + Unquote), the package-level ebnf " +
-	"parser, ported example parsers) x 2-16 goroutines released together, each running a drawn list of ParseString / ParseBytes / " +
+	"parser, a parser whose mapper calls the parser it belongs to, ported example parsers) x 2-16 goroutines released together, each running a drawn list of ParseString / ParseBytes / " +
 	"Parse / Lex / String / LexString+drain calls on generated inputs, after a drawn sequential history of calls on the same objects; " +
 	"oracle: every result, compared after all goroutines have finished, deep-equals the result of the same call on a fresh instance " +
 	"used alone (a baseline taken before any other use for objects that cannot be re-created), and for generated grammars the fresh instance's verdict equals the reference parser's (a new instance does not depend on what else the process built); the test binary is built with -race and " +
